@@ -386,6 +386,14 @@ def sp_forall_keys(eng, st, d, fn):
     d = eng.as_sym(d)
     m = d.d[0] if hasattr(d.shape, "map") else d
     ks = m.shape.key
+    from pyvc.values import EnumS
+    if getattr(eng, "finite", None) is not None and isinstance(ks, EnumS) and ks.ordinal:
+        # refutation search: the key domain is a finite enumeration, expand it (quantifier-free)
+        parts = []
+        for i in range(len(ks.members)):
+            kv = z3.IntVal(i)
+            parts.append(z3.Implies(z3.Select(m.d[0], kv), _truth(eng, st, eng.call_closure(fn.d, [V.from_leaves(ks, [kv])], {}, st))))
+        return V.vbool(z3.And(parts))
     k = z3.Const(V.fresh_name("fk"), ks.sorts()[0])
     body = _truth(eng, st, eng.call_closure(fn.d, [V.from_leaves(ks, [k])], {}, st))
     return V.vbool(z3.ForAll([k], z3.Implies(z3.Select(m.d[0], k), body)))
